@@ -12,7 +12,7 @@ LSAN := $(SAN)
 endif
 ifeq ($(V),tsan)
 # simulator and harness are deliberately NOT instrumented (DESIGN 2.1); only the cppcms/booster archives are
-SAN :=
+SAN := -DVERIF_TSAN_VARIANT
 LSAN := -fsanitize=thread
 endif
 INC := -I$(REPO) -I$(REPO)/booster -I$(B) -I$(B)/booster -I$(REPO)/private -I$(REPO)/src -I$(REPO)/tests
